@@ -644,6 +644,9 @@ func evalBody(cfg *JobCfg, target Labels, samples []Sample, breakAt int, T int64
 		if h != nil {
 			ev.stats["native_histogram_samples"]++
 		}
+		if s.Group > 0 {
+			ev.stats["classic_histogram_component_samples"]++
+		}
 		if !explicit || cfg.TrackTS {
 			ev.tracked[series] = ls
 			delete(ev.withTS, series)
